@@ -13,7 +13,7 @@ cand={}
 fp=os.path.join(V,'findings',pid.lower()+'.jsonl')
 if os.path.exists(fp):
     for l in open(fp):
-        if l.strip():
+        if l.strip() and not l.startswith('#'):
             e=json.loads(l); cand[e['signature']]=e
 firing={}
 for s in seeds:
